@@ -1151,7 +1151,10 @@ impl CompositionGraph {
             })
             .collect::<Vec<_>>()
         {
-            self.remove_node(node);
+            // A dependent reachable through another dependent has already been removed
+            if self.graph.contains_node(node.0) {
+                self.remove_node(node);
+            }
         }
 
         // Any argument satisfied by the node becomes unsatisfied again
